@@ -95,6 +95,7 @@ class Ctx:
         self.workers = int(os.environ.get("VERIF_WORKERS", "0")) or min(16, os.cpu_count() or 4)
         self._built = {}
         self._lock = threading.Lock()
+        self._vlock = threading.Lock()
 
     # ------------------------------------------------------------------ util
     def log(self, *a):
@@ -362,6 +363,10 @@ class Ctx:
 
         sig  -- small dict describing the failing call site / input class (matched against
                 KNOWN_FINDINGS.json); case -- JSON-serialisable replay data."""
+        with self._vlock:
+            return self._violation(what, sig, case)
+
+    def _violation(self, what, sig, case):
         sig = sig or {}
         for kf in load_known(self.pid):
             if kf.get("status") != "known":
